@@ -57,6 +57,13 @@ def _resolve(a, x, outs):
         if o.kind != 'ret':
             raise LookupError
         return E.getitem(o.value, a[2]) if isinstance(o.value, E.SYM_TYPES) else o.value[a[2]]
+    if isinstance(a, tuple) and a and a[0] == 'tail':
+        return x[2:]
+    if isinstance(a, tuple) and a and a[0] == 'slice':
+        o = outs[a[1]]
+        if o.kind != 'ret':
+            raise LookupError
+        return E.force(o.value)[a[2] or None:a[3] or None]
     return a
 
 
@@ -98,13 +105,17 @@ def steps_for(calls, xs):
                 return Ref(a[1])
             if isinstance(a, tuple) and a and a[0] == 'item':
                 return ('$item', a[1], a[2])
+            if isinstance(a, tuple) and a and a[0] == 'tail':
+                return xs[2:]
+            if isinstance(a, tuple) and a and a[0] == 'slice':
+                return ('$slice', a[1], a[2], a[3])
             return a
         s = step(c.mod, c.func, *[None] * 0)
         from symx.replay import enc_arg
         args = []
         for a in c.args:
             e = enc(a)
-            args.append({'$item': [e[1], e[2]]} if isinstance(e, tuple) and e and e[0] == '$item' else enc_arg(e))
+            args.append({'$item': [e[1], e[2]]} if isinstance(e, tuple) and e and e[0] == '$item' else ({'$slice': [e[1], e[2], e[3]]} if isinstance(e, tuple) and e and e[0] == '$slice' else enc_arg(e)))
         kwargs = {}
         for k, a in c.kwargs.items():
             e = enc(a)
@@ -301,7 +312,12 @@ def run_relation_unit(unit, script):
                 raise
             if phi is None:
                 continue
-            res, m2 = ur.obligation(st, phi)
+            if phi is False:
+                # violated on the whole path: the path's own witness is the counterexample
+                ur.res['obligations'] += 1
+                res, m2 = 'sat', model
+            else:
+                res, m2 = ur.obligation(st, phi)
             if res != 'sat':
                 continue
             xs2 = E.model_str(m2, x)
